@@ -43,6 +43,8 @@ def main():
                 if m:
                     hits.append(m.group(1) + " " + m.group(2)[:110])
             shutil.rmtree(scratch, ignore_errors=True)
+            if len(re.findall(r"tier=quick obligations=", out)) != 20:
+                hits.append("CHECKER-DID-NOT-COMPLETE " + out[-300:].replace("\n", " | "))
             total += len(hits)
             print(name, "silent" if not hits else "ALARMS %d" % len(hits))
             for h in sorted(set(hits)):
